@@ -6,7 +6,9 @@ THEOREMS = ['C01', 'C01_holds']
 
 
 def check(tier, seed):
-    return scriptcheck.check(PROP, tier, seed, 'holds_C01', THEOREMS)
+    return scriptcheck.check(PROP, tier, seed, 'holds_C01', THEOREMS, ext=True,
+                             rule_extra='Extended stream (outside the model, property evaluated on the implementation script alone): '
+                                        'directly built MultiSetNodes with repeated elements, nested in lists/mappings/multisets.')
 
 
 def replay(path):
